@@ -318,13 +318,25 @@ func (ce *cenv) expr(e *CExpr) Term {
 	case CBinary:
 		switch e.Op {
 		case "==>":
-			return tImp(ce.boolExpr(e.Args[0]), ce.boolExpr(e.Args[1]))
+			l := ce.boolExpr(e.Args[0])
+			if l.S == "false" {
+				return tTrue // the consequent is not evaluated (it may name things that only exist when the antecedent holds)
+			}
+			return tImp(l, ce.boolExpr(e.Args[1]))
 		case "<==>":
 			return tEq(ce.boolExpr(e.Args[0]), ce.boolExpr(e.Args[1]))
 		case "&&":
-			return tAnd(ce.boolExpr(e.Args[0]), ce.boolExpr(e.Args[1]))
+			l := ce.boolExpr(e.Args[0])
+			if l.S == "false" {
+				return tFalse // e.g. `nargs == 3 && arg2 == ...` at a call that passes two arguments
+			}
+			return tAnd(l, ce.boolExpr(e.Args[1]))
 		case "||":
-			return tOr(ce.boolExpr(e.Args[0]), ce.boolExpr(e.Args[1]))
+			l := ce.boolExpr(e.Args[0])
+			if l.S == "true" {
+				return tTrue
+			}
+			return tOr(l, ce.boolExpr(e.Args[1]))
 		case "in":
 			k := ce.expr(e.Args[0])
 			m := ce.expr(e.Args[1])
